@@ -28,9 +28,10 @@ PROPS = {
     'C02': ['dispatch'],
     'C03': ['dispatch'],
     'C04': ['bind'],
-    'C11': ['dispatch'],
+    'C11': ['dispatch', 'asyncsched', 'registry'],
     'C12': ['dispatch'],
     'C15': ['registry'],
+    'C10': ['asyncsched'],
     'C05': ['msg'],
     'C06': ['msg'],
 }
@@ -76,7 +77,7 @@ def replay(prop, path):
         return 1
     s = _suite(case['suite'])
     out = s.run_impl(case)
-    model = core.run_driver([case])[0]
+    model = core.run_driver([s.model_case(case, out) if hasattr(s, 'model_case') else case])[0]
     fs = s.oracle(prop, case, out)
     pm, pi = s.project(prop, case, model), s.project(prop, case, out)
     diff = pm is not None and not core.matches(core.canon(pm), core.canon(pi))
@@ -148,7 +149,8 @@ def run_check(prop, tier, seed, jobs, t0, build=True):
         if hasattr(s, 'relevant'):
             cases = [c for c in cases if s.relevant(prop, c)]
         impl_outs = run_impl_all(suite_name, cases, jobs)
-        model_outs = core.run_driver_sharded(cases, jobs)
+        model_cases = [s.model_case(c, io) for c, io in zip(cases, impl_outs)] if hasattr(s, 'model_case') else cases
+        model_outs = core.run_driver_sharded(model_cases, jobs)
         n_rel = 0
         for c, io, mo in zip(cases, impl_outs, model_outs):
             pm = s.project(prop, c, mo)
